@@ -4,7 +4,7 @@ from __future__ import annotations
 
 import ast
 
-from ..core import AnalysisError, U, body_walk, call_name, last_attr
+from ..core import AnalysisError, U, body_walk, call_name, last_attr, try_const
 from ..escape import EscapeAnalysis
 from ..selftest import M, T
 
@@ -87,12 +87,23 @@ def run(repo, rep, tier):
         f = repo.func("_cat_numbers.py", fn)
         ok = any(isinstance(c, ast.Call) and call_name(c) == "Document" for c in ast.walk(f))
         rep.ob("C17.R2", f, f"{fn} opens the document inside the guarded region", ok, "", key=f"C17.R2@cat-numbers:{fn}")
+    # values taken out of the (untrusted) property list are type-checked before they reach string functions
+    dv = repo.func("iwork.py", "IWork.document_version")
+    reads = [n for n in body_walk(dv) if isinstance(n, ast.Assign) and isinstance(n.value, ast.Subscript) and try_const(n.value.slice) == "fileFormatVersion"]
+    if not reads:
+        raise AnalysisError("IWork.document_version: read of fileFormatVersion not found")
+    var = U(reads[0].targets[0])
+    typed = any(isinstance(n, ast.Call) and call_name(n) == "isinstance" and len(n.args) == 2 and U(n.args[0]) == var and "str" in U(n.args[1]) for n in body_walk(dv)) \
+        or (isinstance(reads[0].value, ast.Subscript) and False) or any(isinstance(n, ast.Assign) and U(n.targets[0]) == var and isinstance(n.value, ast.Call) and call_name(n.value) == "str" for n in body_walk(dv))
+    rep.ob("C17.R1", reads[0], f"document_version: `{var}` read from Properties.plist is checked to be a string", typed,
+           "" if typed else "a property list can hold any type under fileFormatVersion; a non-string reaches re.sub() in allowed_version and raises TypeError out of Document()",
+           key="C17.R1@document_version:type")
     rep.floor("C17.R1", 12)
     rep.floor("C17.R2", 6)
 
 
 VARIANTS = [
-    M("drop-badzip-handler", "iwork.py", "        except BadZipFile:\n            msg = \"invalid Numbers document\"\n            raise FileFormatError(msg) from None",
+    M("drop-badzip-handler", "iwork.py", "        except ZIP_READ_ERRORS:\n            msg = \"invalid Numbers document\"\n            raise FileFormatError(msg) from None",
       "        except KeyError:\n            msg = \"invalid Numbers document\"\n            raise FileFormatError(msg) from None", "C17.R1"),
     M("narrow-store-blob-handler", "iwork.py", "            except Exception as e:\n                msg = f\"{filename}: invalid IWA file {filename}\"", "            except ValueError as e:\n                msg = f\"{filename}: invalid IWA file {filename}\"", "C17.R1"),
     M("revert-fix-sniff-short-header", "iwafile.py", "        if len(header) < 4:\n            return False\n", "", "C17.R1"),
@@ -100,9 +111,15 @@ VARIANTS = [
     M("revert-fix-empty-store", "containers.py", "        if len(self._objects) == 0:\n            msg = \"invalid Numbers document (no archives)\"\n            raise FileFormatError(msg)\n", "", "C17.R1"),
     M("revert-fix-empty-chunks", "iwork.py", "            if len(iwaf.chunks) == 0:\n                msg = f\"{filename}: invalid IWA file {filename}\"\n                raise FileFormatError(msg)\n", "", "C17.R1"),
     M("wrong-error-type", "iwork.py", "            msg = \"no such file or directory\"\n            raise FileError(msg)", "            msg = \"no such file or directory\"\n            raise FileNotFoundError(msg)", "C17.R1"),
-    M("plist-keyerror-uncaught", "iwork.py", "except (plistlib.InvalidFileException, ExpatError, KeyError, TypeError):", "except (plistlib.InvalidFileException, ExpatError, TypeError):", "C17.R1"),
+    M("plist-keyerror-uncaught", "iwork.py", "except (plistlib.InvalidFileException, ExpatError, KeyError, TypeError, ValueError):", "except (plistlib.InvalidFileException, ExpatError, TypeError, ValueError):", "C17.R1"),
     M("zip-errors-tuple-narrowed", "iwork.py", "    zlib.error,\n    EOFError,\n", "    EOFError,\n", "C17.R1"),
+    M("revert-fix-version-type", "iwork.py", """            if not isinstance(doc_version, str):
+                msg = "fileFormatVersion is not a string"
+                raise TypeError(msg)
+""", "", "C17.R1"),
+    M("revert-fix-open-zip-errors", "iwork.py", "        except ZIP_READ_ERRORS:\n            msg = \"invalid Numbers document\"\n", "        except BadZipFile:\n            msg = \"invalid Numbers document\"\n", "C17.R1"),
+    M("revert-fix-plist-valueerror", "iwork.py", "except (plistlib.InvalidFileException, ExpatError, KeyError, TypeError, ValueError):", "except (plistlib.InvalidFileException, ExpatError, KeyError, TypeError):", "C17.R1"),
     M("cli-drops-unsupported", "_cat_numbers.py", "except (FileFormatError, FileError, UnsupportedError) as e:", "except (FileFormatError, FileError) as e:", "C17.R2"),
-    T("handler-in-helper-order", "iwork.py", "        except BadZipFile:\n            msg = \"invalid Numbers document\"\n            raise FileFormatError(msg) from None",
-      "        except BadZipFile as e:\n            raise FileFormatError(\"invalid Numbers document\") from e"),
+    T("handler-in-helper-order", "iwork.py", "        except ZIP_READ_ERRORS:\n            msg = \"invalid Numbers document\"\n            raise FileFormatError(msg) from None",
+      "        except ZIP_READ_ERRORS as e:\n            raise FileFormatError(\"invalid Numbers document\") from e"),
 ]
